@@ -135,6 +135,18 @@ check('C09', 'E2', 'model_checking',
       'without counter manipulation. Normal form: a label is defined once, a node carries one label.',
       'DESIGN.md 2/C09')
 
-_PENDING = {'C06': 'check not built yet in this round (planned: bounded exhaustive exploration, see DESIGN.md section 2)', 'C10': 'check not built yet in this round (planned: bounded exhaustive exploration, see DESIGN.md section 2)', 'C11': 'check not built yet in this round (planned: bounded exhaustive exploration, see DESIGN.md section 2)', 'C12': 'check not built yet in this round (planned: bounded exhaustive exploration, see DESIGN.md section 2)', 'C13': 'check not built yet in this round (planned: bounded exhaustive exploration, see DESIGN.md section 2)', 'C14': 'check not built yet in this round (planned: bounded exhaustive exploration, see DESIGN.md section 2)', 'C15': 'check not built yet in this round (planned: bounded exhaustive exploration, see DESIGN.md section 2)', 'C17': 'check not built yet in this round (planned: bounded exhaustive exploration, see DESIGN.md section 2)', 'C18': 'check not built yet in this round (planned: bounded exhaustive exploration, see DESIGN.md section 2)', 'C19': 'check not built yet in this round (planned: bounded exhaustive exploration, see DESIGN.md section 2)', 'C20': 'check not built yet in this round (planned: bounded exhaustive exploration, see DESIGN.md section 2)'}
+check('C14', 'E1', 'exploration',
+      'bounded exhaustive enumeration of cross-referenced documents x split/toc/base-url/theme configurations; href/id inventory oracle',
+      'Every heading sequence of <= 2 (quick) / 3 (thorough) units in which every unit is labelled and refers to every other one, '
+      'in a plain variant and a full variant (labelled equation and enumerate item, footnote, index entries + \\printindex, '
+      'bibliography + \\cite), is rendered for split levels -10,0,1,2,3 x toc-depth/toc-non-files x base-url empty/absolute x '
+      'HTML5 default/minimal and XHTML; on the produced files every internal href must name a produced file and an existing '
+      'id/name, ids must be unique per file, every \\ref must show its target number and every file must be reachable from '
+      'index.html (themes with a contents navigation).',
+      'Trusted: html.parser inventory of href/id/name; internal = path empty or *.html after stripping base-url. One open '
+      'finding (navigation link to an index that has no file of its own).',
+      'DESIGN.md 2/C14')
+
+_PENDING = {'C06': 'check not built yet in this round (planned: bounded exhaustive exploration, see DESIGN.md section 2)', 'C10': 'check not built yet in this round (planned: bounded exhaustive exploration, see DESIGN.md section 2)', 'C11': 'check not built yet in this round (planned: bounded exhaustive exploration, see DESIGN.md section 2)', 'C12': 'check not built yet in this round (planned: bounded exhaustive exploration, see DESIGN.md section 2)', 'C13': 'check not built yet in this round (planned: bounded exhaustive exploration, see DESIGN.md section 2)', 'C15': 'check not built yet in this round (planned: bounded exhaustive exploration, see DESIGN.md section 2)', 'C17': 'check not built yet in this round (planned: bounded exhaustive exploration, see DESIGN.md section 2)', 'C18': 'check not built yet in this round (planned: bounded exhaustive exploration, see DESIGN.md section 2)', 'C19': 'check not built yet in this round (planned: bounded exhaustive exploration, see DESIGN.md section 2)', 'C20': 'check not built yet in this round (planned: bounded exhaustive exploration, see DESIGN.md section 2)'}
 for _p, _why in _PENDING.items():
     NOT_APPLICABLE.append({'property_id': _p, 'reason': _why})
